@@ -199,6 +199,9 @@ Definition start (s : tstate) (ws : list winput) : sys :=
 
 Definition thread_done (t : thread) : bool := match t_pc t with PDone _ => true | _ => false end.
 Definition quiescent (S : sys) : bool := forallb thread_done (s_ths S).
+(* nobody is inside WritePiece (callers have returned or not yet called) *)
+Definition thread_idle (t : thread) : bool := match t_pc t with PStart | PDone _ => true | _ => false end.
+Definition idle (S : sys) : bool := forallb thread_idle (s_ths S).
 
 (* ---- observers (all read-only) ---- *)
 Definition bitfield (s : tstate) : list bool :=                        (* torrent.go:133 *)
